@@ -1145,6 +1145,7 @@ def run(ctx):
         ctx.states += res.distinct
         ctx.transitions += res.generated
     ctx.exhaustive = True
+    ctx.cov["tlc_runs"].sort(key=lambda r: (r["stage"], r["module"], r["cfg"]))    # (the runs finish in any order)
 
     # ---------------------------------------------------------------- S2: expressions
     etexts = done["expr"][1] + (done["expr2"][1] if "expr2" in done else [])
@@ -1358,6 +1359,6 @@ def run(ctx):
 
 MANIFEST = {
     "technique": "TLA+ specification of oper_expression (token strings, the documented grammar as trees, the parser as coded), of affine operations and chains, of repeat() and of a PDBx file with get_assembly / list_assemblies and the edits of its three assembly categories (specs/X06) model-checked by TLC; every enumerated expression, token string, file x call pair and every transition of the session graph executed against the real API and compared with the values TLC computed; recorded random histories, random expressions, repeat() calls and the calls made by the repository's assembly tests judged by TLC (Trace.tla)",
-    "level_text": "TLC checks on every expression tree with <= 2 groups of <= 2 items (ids 1, 2, X0; ranges over 1..3, descending ones included) that the parser as coded (replace / split / reverse / product) yields exactly the declarative chains (one tuple per combination, one step per group, group written last applied first and varying slowest), that itertools.product equals the positional definition, and that the grammar recogniser and the renderer are inverse; on every token string of <= 5 tokens over ( ) , - 1 3 X0 that the grammar is accepted and every refusal is malformed; on 25,296 file x call pairs (4 atoms in 3 asym ids, 2 models, 5 operations with one id given twice, 1-2 rows of pdbx_struct_assembly_gen with 10 expressions incl. unknown ids, malformed and descending ones, assembly id None / known / unknown, model None / 1 / -1 / out of range, extra label_asym_id, author / label chain ids, bonds, absent categories) that refusals are exactly the documented reasons, that the atoms are the listed atoms once per chain in file order with sym_id = number of the copy, that positions equal the composite of the written operations for every model, that annotations and bonds follow their source; the chain applied step by step equals one affine map for all chains of <= 3 steps. All of these inputs, every repeat() input with n, k <= 3 (k = 0 included) and every transition of a 3-call session graph on one file object (edits of expression / asym list / assembly id / rows / operations, dropped and restored categories, overwritten results) are executed on real CIFFile, BinaryCIFFile and re-parsed CIF text, passed as file, block, or file + data_block, and compared with TLC's values. Random histories on random files (<= 9 atoms, <= 3 models, <= 10 operations, products up to 24 copies per row), 240 random expressions (numerals to 99, <= 4 groups), 120 repeat() calls and the expressions / list_assemblies calls of the repository's tests are recorded and judged by TLC.",
+    "level_text": "TLC checks on every expression tree with <= 2 groups of <= 2 items (ids 1, 2, X0; ranges over 1..3, descending and one-element ones included; 8,280 trees) that the parser as coded (replace / split / reverse / product) yields exactly the declarative chains (one tuple per combination, one step per group, group written last applied first and varying slowest), that itertools.product equals the positional definition, and that the grammar recogniser and the renderer are inverse; on every token string of <= 5 tokens over ( ) , - 1 3 X0 (19,608) that the grammar is accepted and every refusal is malformed; on 11,744 file x call pairs (4 atoms in 3 asym ids, 2 models, 5 operations with one id given twice, 1-2 rows of pdbx_struct_assembly_gen with 10 expressions incl. unknown ids, malformed and descending ones, assembly id None / known / unknown, model None / 1 / -1 / out of range, extra label_asym_id, author / label chain ids, bonds, absent categories) that refusals are exactly the documented reasons, that the atoms are exactly the listed atoms once per chain in file order with sym_id = number of the copy, that positions equal the composite of the written operations for every model, that annotations and bonds follow their source; the chain applied step by step equals one affine map for all chains of <= 3 steps. All of these inputs, every repeat() input with n, k <= 3 (k = 0 included) and every transition of a 3-call session graph on one file object (edits of expression / asym list / assembly id / rows / operations, dropped and restored categories, overwritten results; 4,636 transitions) are executed on real CIFFile, BinaryCIFFile and re-parsed CIF text, passed as file, block, or file + data_block, and compared with TLC's values. 80 random histories on random files (<= 9 atoms, <= 3 models, <= 10 operations, products up to 24 copies per row), 240 random expressions (numerals to 99, <= 4 groups), 120 repeat() calls and the expressions / list_assemblies calls of the repository's tests are recorded and judged by TLC (thorough: 74,528 + 8,440 trees, 137,257 token strings, 87,948 file x call pairs with 3 models and both tables, 65,812 session transitions of 4 calls, 1,440 histories).",
     "level_note": "Bounded: exhaustive only inside the stated bounds. Integer-valued operations and coordinates only (floating-point rotation matrices are not decided). Outside the documented grammar and for descending ranges a refusal or the code's reading are both accepted. The order of the copies, sym_id restarting per row and 'the later row of a repeated operation id counts' are modelled from the code (documentation silent). Other parameters of get_assembly (altloc, extra_fields other than label_asym_id) and reading foreign CIF text are not covered here. Exception classes are not compared. Trusted: TLC, the TLA+ value parser, the projections, numpy.",
 }
